@@ -32,7 +32,9 @@ ASSUMPTIONS = [
     "timing rules and signature validation are switched off in this run (they are C05's and C07's subject); num_bundles is set to the request's length",
     "declared algorithm entries whose element kind contradicts their algorithm number (an <ECDSA> element carrying a non-ECDSA number, "
     "an <EdDSA> element carrying a non-EdDSA number) are outside the region's domain (DeclaredWellFormed in C06.lean): /repo's verdict "
-    "on ECDSA/EdDSA keys then depends on set iteration order (accept or ValueError); those cases are compared model-vs-implementation only",
+    "on ECDSA/EdDSA keys then depends on set iteration order (accept or ValueError); those cases are compared model-vs-implementation only "
+    "as long as the run's own probe (the witness of C06.lean replayed on /repo) shows the dependence; once /repo no longer shows it "
+    "(proposed_fixes/C06_ec_declared_entry_order.diff) they are judged by the documented region like every other case",
     "declared RSA sizes are >= 1 bit (size 0 would match a truncated RFC 3110 blob whose modulus is empty)",
     "public key texts are canonical base64 (the model declines non-canonical spellings)",
 ]
@@ -658,7 +660,7 @@ def families(tier: str) -> list[tuple[str, list[int]]]:
     for bits in (1024, 2048, 3072, 4096):
         for e in (3, 65537, 2**32 + 1):
             for alg in (8, 10):
-                out.append((f"rsa:{bits}:{e}:{alg}", [1, 2, 3, 9] if bits <= 2048 else [2]))
+                out.append((f"rsa:{bits}:{e}:{alg}", [1, 2, 3, 9] if (bits <= 2048 and alg == 8) else [2] if alg == 8 else [1]))
     out += [("rsa:2048:65537:5", [2]), ("ecdsa:13:n", [1, 2, 3, 9]), ("ecdsa:14:n", [1, 2, 3]), ("ecdsa:13:p", [2]), ("ecdsa:14:p", [2]),
             ("eddsa:15", [1, 2]), ("eddsa:16", [1, 2]), ("mixed", [2, 3, 4])]
     return out
@@ -733,29 +735,11 @@ def run(tier: str, driver_ok: bool) -> Result:
         "base requests over RSA 1024/2048/3072/4096 x exponents 3/65537/2^32+1 x algorithms 8/10(/5), ECDSA P-256/P-384 with and "
         "without the SEC 1 octet, EdDSA, mixed families; 1/2/3/4/9 bundles; every single-field corruption of the property text at "
         "first/second/middle/last key positions (thorough: all); every algorithm number 1..16 under every policy subclass; flag sets "
-        "= as-configured / own-flag-only / all-but-own / random (thorough: all 64 subsets of the six switches); each (request, policy) "
+        "= as-configured / own-flag-only / all-but-own / random (thorough: additionally all 64 subsets of the six switches for every request of <= 2 bundles); each (request, policy) "
         "is judged by validate_request and by each of the five rule functions; non-trivial = distinct (request, policy) input"
     )
     r = lib.rng("C06")
-    todo: list[tuple[str, dict[str, Any], dict[str, Any], dict[str, Any], dict[str, bool], bool]] = []
-    lines: list[dict[str, Any]] = []
-    for family, nbs in families(tier):
-        for nb in nbs:
-            case0, pol0 = base_case(r, family, nb)
-            for tag, own, case, pol in corruptions(r, case0, pol0, family, tier):
-                case = as_sets(case)
-                for flags in flag_sets(own, pol, r, tier if len(case["bundles"]) <= 3 else "quick"):
-                    p = dict(pol, **flags)
-                    try:
-                        req, policy = build(case, p)
-                    except Exception as exc:  # noqa: BLE001  (a policy the configuration loader itself refuses)
-                        res.bump("skipped:unbuildable:" + type(exc).__name__)
-                        continue
-                    impl = impl_all(req, policy)
-                    reg = region(case, p)
-                    wf = well_formed(case)
-                    todo.append((f"{tag}|{family}|{nb}", case, p, impl, reg, wf))
-                    lines.append({"op": "c06_all", "request": request_j(req), "policy": request_policy_j(policy), "now": 0})
+    order_defect = True  # tabulated from the code below: does the declared-entry search raise on a malformed entry met first?
     # the order-dependence witness of C06.lean (ecdsa_declared_order_witness), replayed on /repo in both visiting orders
     witness_key = keyspec("ec", 13, bytes(64))
     for order in ([("ecdsa", 13), ("ecdsa", 15)], [("ecdsa", 15), ("ecdsa", 13)]):
@@ -772,13 +756,43 @@ def run(tier: str, driver_ok: bool) -> Result:
         res.count({"witness": order})
         res.bump("witness:ecdsa-declared-order")
         if got != want:
-            res.disagreement("ecdsa_declared_order_witness does not reproduce on /repo", {"order": order}, got, want)
+            order_defect = False
+            res.disagreement("ecdsa_declared_order_witness does not reproduce on /repo (declared-entry search repaired? then the model and the "
+                             "_partial theorems of C06.lean must follow: compare the algorithm before stripping the prefix)", {"order": order}, got, want)
 
-    model = run_driver(lines, exe=DRIVER) if driver_ok else [None] * len(lines)
+    if not order_defect:
+        res.notes.append("declared-entry order dependence not present in this tree: malformed declared entries are judged by the documented region too")
+    for family, nbs in families(tier):
+        for nb in nbs:
+            todo: list[tuple[str, dict[str, Any], dict[str, Any], dict[str, Any], dict[str, bool], bool]] = []
+            lines: list[dict[str, Any]] = []
+            case0, pol0 = base_case(r, family, nb)
+            for tag, own, case, pol in corruptions(r, case0, pol0, family, tier):
+                case = as_sets(case)
+                full = tier == "thorough" and len(case["bundles"]) <= 2 and (not tag.startswith("declared-extra") or tag.endswith("as-configured"))
+                for flags in flag_sets(own, pol, r, "thorough" if full else "quick"):
+                    p = dict(pol, **flags)
+                    try:
+                        req, policy = build(case, p)
+                    except Exception as exc:  # noqa: BLE001  (a policy the configuration loader itself refuses)
+                        res.bump("skipped:unbuildable:" + type(exc).__name__)
+                        continue
+                    impl = impl_all(req, policy)
+                    reg = region(case, p)
+                    wf = well_formed(case) or not order_defect
+                    todo.append((f"{tag}|{family}|{nb}", case, p, impl, reg, wf))
+                    lines.append({"op": "c06_all", "request": request_j(req), "policy": request_policy_j(policy), "now": 0})
+            # one driver call per (family, bundle count): bounded memory in the thorough tier
+            model = run_driver(lines, exe=DRIVER) if driver_ok else [None] * len(lines)
+            evaluate(res, todo, model)
+    return res
+
+
+def evaluate(res: Result, todo: list[Any], model: list[Any]) -> None:
     for (tag, case, p, impl, reg, wf), m in zip(todo, model):
         res.count({"case": case, "policy": p})
         res.evaluations += len(CHECKS)  # the composite and each rule function are judged separately
-        rule = tag.split(":")[0]
+        rule = tag.split("|")[0].split(":")[0]
         res.bump("corruption:" + rule)
         res.bump("family:" + tag.split("|")[1].split(":")[0])
         res.bump("bundles:" + tag.split("|")[2])
@@ -790,7 +804,6 @@ def run(tier: str, driver_ok: bool) -> Result:
             small = {"domain": case["domain"], "declared": case["declared"], "bundles": [{"id": b["id"], "keys": [{**k, "pk": k["pk"][:24] + "..."} for k in b["keys"]]} for b in case["bundles"]]}
             res.sample({"tag": tag, "case": small, "policy": p, "impl": impl, "model": m, "documented_region": reg})
         judge(res, tag, case, p, impl, reg, m, wf)
-    return res
 
 
 def replay(obj: dict[str, Any]) -> Any:
